@@ -168,6 +168,8 @@ class Job:
         return f
 
     def done(self):
+        for lab in H.STATS.cross_disagreements:
+            self.inconclusive("second solver (z3 4.8.12) answers sat where z3 5.1 answered unsat: %s" % lab)
         for q in H.STATS.samples[:2]:
             if len(self.res["samples"]) < 4:
                 self.res["samples"].append(dict(query=q))
